@@ -932,10 +932,38 @@ namespace bloch::runtime {
             rc->isAbstract = clsNode->isAbstract;
             m_classTable[rc->name] = rc;
         }
-        // populate members
-        for (auto& clsNode : program.classes) {
-            if (!clsNode || !clsNode->typeParameters.empty())
-                continue;  // generic templates handled lazily
+        // populate members, base classes first: a class starts from a copy of its base's
+        // layout and dispatch table, so the base must be complete whatever the source order
+        using ClassNode = compiler::ClassDeclaration;
+        std::vector<ClassNode*> ordered;
+        {
+            std::unordered_map<std::string, ClassNode*> byName;
+            for (auto& clsNode : program.classes) {
+                if (clsNode && clsNode->typeParameters.empty())
+                    byName.emplace(clsNode->name, clsNode.get());
+            }
+            std::unordered_set<std::string> placed;
+            std::function<void(ClassNode*)> place = [&](ClassNode* node) {
+                if (!placed.insert(node->name).second)
+                    return;
+                std::string baseName;
+                if (auto named = dynamic_cast<NamedType*>(node->baseType.get())) {
+                    if (named->typeArguments.empty() && !named->nameParts.empty())
+                        baseName = named->nameParts.back();
+                } else if (!node->baseType && !node->baseName.empty()) {
+                    baseName = node->baseName.back();
+                }
+                auto baseIt = byName.find(baseName);
+                if (baseIt != byName.end())
+                    place(baseIt->second);
+                ordered.push_back(node);
+            };
+            for (auto& clsNode : program.classes) {
+                if (clsNode && clsNode->typeParameters.empty())
+                    place(clsNode.get());  // generic templates handled lazily
+            }
+        }
+        for (ClassNode* clsNode : ordered) {
             RuntimeClass* rc = findClass(clsNode->name);
             if (!rc)
                 continue;
